@@ -336,6 +336,14 @@ def scramble(schema, ci, r, rng, deep=True, depth=0):
     import betterproto as bp
     c = schema.classes[ci]
     n = 0
+    if (deep or depth == 0) and rng.random() < 0.6:
+        # more unknown records decoded INTO the copy: its _unknown_fields grows, the original's may not (seeded change C08-4:
+        # a mutable buffer shared by a message and its copies); for a shallow copy only the top-level object is its own
+        try:
+            r.parse(msggen.gen_unknown(rng, {f.number for f in c.fields}, n=1))
+            n += 1
+        except Exception:  # noqa
+            pass
     for f in c.fields:
         raw = object.__getattribute__(r, f.name)
         if deep and depth < 4:
